@@ -9,7 +9,7 @@ SRC=/tmp/seed_$P/$V
 WT=/tmp/vs_${P}_$V
 OUT=/verif/seeded/$P-$V
 rm -rf $WT; git -C /repo worktree prune; git -C /repo worktree add -q --detach $WT HEAD || exit 3
-dest=$(grep -m1 -oE 'Copy this file to:? *[^ ]*' $SRC/demo_test.go | awk '{print $NF}' | sed 's#^<repo>/##;s#^<checkout>/##')
+dest=$(grep -m1 -oE 'Copy this file to:? *[^ ]*' $SRC/demo_test.go | awk '{print $NF}' | sed -E 's#^<[a-zA-Z_ -]*>/##')
 runpat=$(grep -m1 -o "\-run '[^']*'" $SRC/demo_test.go | sed "s/-run '//;s/'//")
 if [ -z "$dest" ] || [ "${dest##*.}" != "go" ]; then dest=$(grep -m1 -oE '(internal|test|pkg|cmd)/[A-Za-z0-9_/.-]*_test\.go' $SRC/demo_test.go); fi
 pkgdir=$(dirname $dest)
